@@ -278,7 +278,11 @@ TraceStep ==
      IF f # "ok" THEN Reject(f)
      ELSE /\ s' = Ev.ns /\ t' = t + 1 /\ ag' = Ev.nag /\ l' = l + 1
           /\ flags' = flags
-               \cup (IF Range(Ev.supp) # PolSupp(TI, s, ag) THEN {"policy-support-differs-from-model"} ELSE {})
+               \* value-based policies compare floats: exact ties may be split, never reordered
+               \cup (IF IsPO(TI) /\ TI.pk \in {"qb", "alpha"}
+                     THEN (IF Range(Ev.supp) \subseteq PolSupp(TI, s, ag) THEN {} ELSE {"policy-support-differs-from-model"})
+                          \cup (IF Range(Ev.supp) # PolSupp(TI, s, ag) THEN {"exact-tie-split-by-floating-point"} ELSE {})
+                     ELSE IF Range(Ev.supp) # PolSupp(TI, s, ag) THEN {"policy-support-differs-from-model"} ELSE {})
                \cup (IF Ev.nag # Update(TI, ag, Ev.a, Ev.o) THEN {"agentstate-differs-from-model-update"} ELSE {})
                \cup (IF TI.avail[Ev.s][Ev.a] = 0 THEN {"action-not-available"} ELSE {})
                \cup (IF Ev.t # t THEN {"timestep-field-differs"} ELSE {})
@@ -388,5 +392,5 @@ DetReturnIsTruncated ==
      LET d == DetOracle(TI, Job.cap) IN
      /\ d.traj = (IF Len(hist) = 0 THEN <<s>> ELSE [i \in 1..Len(hist) |-> hist[i].s] \o <<s>>)
      /\ RollRets(Rewards(hist), Gam(TI))[1] = d.iv
-InstancesOK == PolicyOK(TI)
+InstancesOK == (Mode = "trace" /\ Tr.kind = "ret") \/ PolicyOK(TI)
 =============================================================================
